@@ -16,17 +16,21 @@ import (
 
 // Part 3 (Engine A): membership HISTORIES on one node — AddPeer / RemovePeer in
 // any order, including idempotent re-adds of members and removes of absent
-// peers. Differential oracle after every operation: the node must behave
+// peers — interleaved with LOOKUPS (getHealthyOwner for a few subscribers: a
+// lookup may have side effects such as caches) and with health changes of the
+// other peers. Differential oracle after every operation: the node must behave
 // exactly like a PeerPool freshly configured with the same final membership.
 
 type msys struct {
-	self    string
-	others  []string
-	p       *pool.PeerPool
-	members map[string]bool // set semantics of AddPeer/RemovePeer (self is always a member)
-	ids     []string
-	viols   []explore.Viol
-	bk      sync.Mutex // harness bookkeeping only (free-running -race pass runs Apply on real goroutines)
+	self      string
+	others    []string
+	p         *pool.PeerPool
+	members   map[string]bool // set semantics of AddPeer/RemovePeer (self is always a member)
+	unhealthy map[string]bool // this node's view: peers marked unhealthy
+	lookups   bool            // offer Lookup / ToggleHealth operations
+	ids       []string
+	viols     []explore.Viol
+	bk        sync.Mutex // harness bookkeeping only (free-running -race pass runs Apply on real goroutines)
 }
 
 func membershipIDs() []string {
@@ -36,7 +40,7 @@ func membershipIDs() []string {
 }
 
 func newMsys(self string, others []string, startFull bool) *msys {
-	s := &msys{self: self, others: others, members: map[string]bool{self: true}, ids: membershipIDs()}
+	s := &msys{self: self, others: others, members: map[string]bool{self: true}, unhealthy: map[string]bool{}, ids: membershipIDs()}
 	var peers []string
 	if startFull {
 		peers = append([]string{self}, others...)
@@ -52,6 +56,14 @@ func (s *msys) Ops() []string {
 	var ops []string
 	for _, o := range s.others {
 		ops = append(ops, "AddPeer "+o, "RemovePeer "+o)
+	}
+	if s.lookups {
+		for _, o := range s.others {
+			ops = append(ops, "ToggleHealth "+o)
+		}
+		for k := 0; k < nLookupIDs; k++ {
+			ops = append(ops, fmt.Sprintf("Lookup %d", k))
+		}
 	}
 	return ops
 }
@@ -69,10 +81,53 @@ func (s *msys) Apply(op string) string {
 		s.bk.Lock()
 		delete(s.members, f[1])
 		s.bk.Unlock()
+	case "ToggleHealth":
+		s.bk.Lock()
+		s.unhealthy[f[1]] = !s.unhealthy[f[1]]
+		h := !s.unhealthy[f[1]]
+		s.bk.Unlock()
+		s.p.VerifC17SetPeerHealth(f[1], h)
+	case "Lookup":
+		var k int
+		fmt.Sscan(f[1], &k)
+		return s.p.VerifC17HealthyOwner(s.lookupID(k))
 	default:
 		panic("unknown op " + op)
 	}
 	return fmt.Sprint(s.p.Stats().PeerCount)
+}
+
+const nLookupIDs = 6
+
+// lookupID: the MAC-shaped ids at the end of the id set.
+func (s *msys) lookupID(k int) string { return s.ids[30+k] }
+
+func (s *msys) unhealthyList() []string {
+	var m []string
+	for x, u := range s.unhealthy {
+		if u {
+			m = append(m, x)
+		}
+	}
+	sort.Strings(m)
+	return m
+}
+
+// fallbackWalk reveals the ranking a node actually uses through its observable
+// routing: route, mark the chosen peer unhealthy, route again ... until the
+// node serves locally. restore puts the health view back.
+func fallbackWalk(p *pool.PeerPool, self, id string, restore func(*pool.PeerPool)) []string {
+	var seq []string
+	for step := 0; step < 12; step++ {
+		o := p.VerifC17HealthyOwner(id)
+		seq = append(seq, o)
+		if o == self {
+			break
+		}
+		p.VerifC17SetPeerHealth(o, false)
+	}
+	restore(p)
+	return seq
 }
 
 func (s *msys) memberList() []string {
@@ -86,7 +141,7 @@ func (s *msys) memberList() []string {
 
 func (s *msys) Fingerprint() string {
 	return deepdump.Dump(s.p, deepdump.Options{IgnoreTimes: true, SkipFields: map[string]bool{
-		"PeerPool.httpClient": true, "PeerPool.healthCheckClient": true, "PeerPool.healthCancel": true}}) + "|" + strings.Join(s.memberList(), ",")
+		"PeerPool.httpClient": true, "PeerPool.healthCheckClient": true, "PeerPool.healthCancel": true}}) + "|" + strings.Join(s.memberList(), ",") + "|" + strings.Join(s.unhealthyList(), ",")
 }
 
 func (s *msys) v(kind, site, f string, a ...any) {
@@ -98,6 +153,27 @@ func (s *msys) Check() []explore.Viol {
 	fresh := mkPool(s.self, m)
 	if got := s.p.Stats().PeerCount; got != len(m) {
 		s.v("membership", "Stats", "after this history the membership is %q (%d peers) but PeerCount is %d", m, len(m), got)
+	}
+	un := s.unhealthyList()
+	restore := func(p *pool.PeerPool) {
+		for _, o := range s.others {
+			p.VerifC17SetPeerHealth(o, !s.unhealthy[o])
+		}
+	}
+	restore(fresh)
+	for _, id := range s.ids {
+		// routing under the current health view, and the whole fallback order behind it
+		if got, want := s.p.VerifC17HealthyOwner(id), fresh.VerifC17HealthyOwner(id); got != want {
+			s.v("agreement", "getHealthyOwner", "membership %q, unhealthy %q: this node routes %q to %q, a node freshly configured with the same membership and health view routes it to %q", m, un, id, got, want)
+			break
+		}
+		if got, want := fallbackWalk(s.p, s.self, id, restore), fallbackWalk(fresh, s.self, id, restore); strings.Join(got, ">") != strings.Join(want, ">") {
+			s.v("ranking", "getHealthyOwner", "membership %q, unhealthy %q: marking each chosen peer unhealthy in turn, this node routes %q along %q, a freshly configured node along %q", m, un, id, got, want)
+			break
+		}
+	}
+	if len(un) > 0 {
+		return s.viols // the all-healthy comparisons below assume an all-healthy view
 	}
 	for _, id := range s.ids {
 		want := fresh.GetOwner(id)
@@ -142,7 +218,11 @@ func membershipModels(run *report.Run) []*explore.Model {
 			c, full := c, full
 			ms = append(ms, &explore.Model{
 				Name: "pool.PeerPool-membership", Config: fmt.Sprintf("self=%s others=%s startFull=%v", c.self, strings.Join(c.others, ","), full),
-				New:   func() explore.System { return newMsys(c.self, c.others, full) },
+				New: func() explore.System {
+					s := newMsys(c.self, c.others, full)
+					s.lookups = true
+					return s
+				},
 				Depth: depth, NoDedupDepth: 3, Classify: classify, Budget: 5 * time.Minute,
 			})
 		}
